@@ -115,7 +115,7 @@ pub fn child_main(case_json: &str) {
 
 async fn child(case: &PushCase) -> ChildOut {
     let mut out = ChildOut::default();
-    let beh = Behaviour { synack: true, echo: true, heartbeat: true, server_settings: true, scheme: None, schemes: case.sessions.iter().map(|s| s.0.bytes()).collect(), heartbeat_limit: None, uot_echo: None };
+    let beh = Behaviour { synack: true, echo: true, heartbeat: true, server_settings: true, scheme: None, schemes: case.sessions.iter().map(|s| s.0.bytes()).collect(), heartbeat_limit: None, uot_echo: None, ..Default::default() };
     let srv = match RefServer::start(PASSWORD, beh).await {
         Ok(s) => s,
         Err(f) => {
@@ -445,7 +445,14 @@ pub struct ServerPushCase {
     /// what the client announces: Some(j) = md5 of Fam(j); None = no padding-md5 key at all
     pub announce: Option<u8>,
     pub version: u8,
+    /// how the server's scheme text ends (a scheme file usually ends in a line break):
+    /// 0 = nothing, 1 = LF, 2 = CRLF, 3 = two spaces, 4 = LF LF; the client may announce the md5 of
+    /// exactly that text (same scheme) or of another one
+    #[serde(default)]
+    pub ending: u8,
 }
+
+const ENDINGS: [&str; 5] = ["", "\n", "\r\n", "  ", "\n\n"];
 
 pub struct ServerPushFam;
 
@@ -455,7 +462,7 @@ impl Family for ServerPushFam {
         "serverpush"
     }
     fn strategy(&self, _tier: Tier) -> BoxedStrategy<ServerPushCase> {
-        (0u8..4, proptest::option::weighted(0.9, 0u8..4), 0u8..4).prop_map(|(server_scheme, announce, version)| ServerPushCase { server_scheme, announce, version }).boxed()
+        (0u8..4, proptest::option::weighted(0.9, 0u8..4), 0u8..4, prop_oneof![2 => Just(0u8), 1 => 1u8..5]).prop_map(|(server_scheme, announce, version, ending)| ServerPushCase { server_scheme, announce, version, ending }).boxed()
     }
     fn run(&self, case: &ServerPushCase, _cx: &CaseCtx) -> CaseResult {
         let mut out = Outcome::new();
@@ -463,7 +470,8 @@ impl Family for ServerPushFam {
         let res: Result<(), Fail> = run_virtual(async move {
             let case = c;
             let mut l = link(PipeParams::default(), PipeParams::default());
-            let scheme = fam_scheme(case.server_scheme);
+            let ending = ENDINGS[case.ending as usize % ENDINGS.len()];
+            let scheme = format!("{}{ending}", fam_scheme(case.server_scheme));
             let (_srv, _rx, _t) = server_session(&mut l, padding(&scheme));
             let mut peer = ScriptPeer::client_side(&mut l);
             let mut settings = String::new();
@@ -472,7 +480,8 @@ impl Family for ServerPushFam {
             }
             settings.push_str("client=ref");
             if let Some(j) = case.announce {
-                settings.push_str(&format!("\npadding-md5={}", md5_of(fam_scheme(j).as_bytes())));
+                // the same scheme is announced as the md5 of the server's exact text
+                settings.push_str(&format!("\npadding-md5={}", md5_of(format!("{}{}", fam_scheme(j), if j == case.server_scheme { ending } else { "" }).as_bytes())));
             }
             peer.send(&[RFrame::new(rc::SETTINGS, 0, settings.into_bytes())]).await.ok();
             let frames = peer.drain(Duration::from_millis(200)).await;
@@ -480,7 +489,15 @@ impl Family for ServerPushFam {
             let differs = case.announce.is_some_and(|j| j != case.server_scheme);
             if differs {
                 crate::ensure!(pushes.len() == 1, "C19.adopt", "client announced another scheme's md5 but the server sent {} UpdatePaddingScheme frames", pushes.len());
-                crate::ensure!(pushes[0].data == scheme.as_bytes() && pushes[0].sid == 0, "C19.adopt", "the pushed scheme is not the server's raw scheme");
+                crate::ensure!(
+                    pushes[0].data == scheme.as_bytes() && pushes[0].sid == 0,
+                    "C19.adopt",
+                    "the pushed scheme ({} bytes, md5 {}) is not the server's scheme text ({} bytes, md5 {} - the md5 the server will compare the next session's announcement with)",
+                    pushes[0].data.len(),
+                    md5_of(&pushes[0].data),
+                    scheme.len(),
+                    md5_of(scheme.as_bytes())
+                );
             } else {
                 crate::ensure!(pushes.is_empty(), "C19.next", "the server pushed its scheme although the client announced the same md5 (or none)");
             }
@@ -492,6 +509,7 @@ impl Family for ServerPushFam {
         out.nt(case.announce.is_some_and(|j| j != case.server_scheme));
         out.class_if(case.announce.is_some_and(|j| j != case.server_scheme), "md5-differs");
         out.class_if(case.announce == Some(case.server_scheme), "md5-equal");
+        out.class_if(case.ending % 5 != 0, "scheme-text-ends-in-whitespace");
         Ok(out)
     }
 }
